@@ -10,6 +10,7 @@ def dispatchWrapF (line : String) : String :=
   | "dclones" :: args => handleDclones args
   | "sem" :: args => handleSem args
   | "gtargets" :: args => handleGtargets args
+  | "implied" :: args => handleImplied args
   | _ => "bad-op"
 
 partial def loopWrapF (h : IO.FS.Stream) (out : IO.FS.Stream) : IO Unit := do
